@@ -240,6 +240,33 @@ static void cross_thread_tiny() {
   sh->pairs++; sh->ok++; sh->nontrivial++;
 }
 
+/* blocks above 1 GiB get a mapping of their own that the kernel places where it likes (above the range of mimalloc's segment map):
+   they are ordinary blocks for every entry point all the same (address space only: two bytes are touched) */
+static void giant_blocks() {
+  const size_t n = ((size_t)3 << 29) + 4096;     /* 1.5 GiB */
+  for (int a = 0; a < 6; a++) {
+    void* p = NULL; const char* nm = "";
+    switch (a) {
+      case 0: p = malloc(n); nm = "malloc"; break;
+      case 1: p = realloc(NULL, n); nm = "realloc(NULL)"; break;
+      case 2: p = aligned_alloc(64, n); nm = "aligned_alloc"; break;
+      case 3: if (posix_memalign(&p, 4096, n) != 0) p = NULL; nm = "posix_memalign"; break;
+      case 4: p = ::operator new(n, std::nothrow); nm = "operator new(nothrow)"; break;
+      default: p = valloc(n); nm = "valloc"; break;
+    }
+    sh->pairs++;
+    if (p == NULL) { viol("%s(1.5 GiB) returned NULL", nm); return; }
+    size_t u = malloc_usable_size(p);
+    if (u < n) { viol("%s(1.5 GiB): malloc_usable_size = %zu < %zu", nm, u, n); return; }
+    if (u != f_usable(p)) { viol("%s(1.5 GiB): malloc_usable_size %zu != mi_usable_size %zu", nm, u, f_usable(p)); return; }
+    ((volatile char*)p)[0] = 1; ((volatile char*)p)[n - 1] = 2;
+    void* q = realloc(p, n - 4096);              /* (a shrink: no copy of 1.5 GiB) */
+    if (q == NULL || ((char*)q)[0] != 1 || ((char*)q)[n - 4097] != 0) { viol("%s(1.5 GiB) then realloc(-4096): %p / contents lost", nm, q); return; }
+    if (a == 4) ::operator delete(q); else free(q);
+    sh->ok++; sh->nontrivial++;
+  }
+}
+
 int main(int argc, char** argv) {
   const char* mode = argc > 1 ? argv[1] : "?";
 #ifdef OV_STATIC
@@ -275,6 +302,8 @@ int main(int argc, char** argv) {
     if (!(WIFEXITED(st) && (WEXITSTATUS(st) == 0 || WEXITSTATUS(st) == 1))) viol("string duplication checks died (status 0x%x)", st);
     pid = fork(); if (pid == 0) { whole_program(); _exit(0); } waitpid(pid, &st, 0);
     if (!(WIFEXITED(st) && WEXITSTATUS(st) == 0)) viol("whole-program run died (status 0x%x)", st);
+    pid = fork(); if (pid == 0) { giant_blocks(); _exit(0); } waitpid(pid, &st, 0);
+    if (!(WIFEXITED(st) && WEXITSTATUS(st) == 0)) viol("blocks of 1.5 GiB: process died (status 0x%x)", st);
     pid = fork(); if (pid == 0) { cross_thread_tiny(); _exit(0); } waitpid(pid, &st, 0);
     if (!(WIFEXITED(st) && WEXITSTATUS(st) == 0)) viol("cross-thread release of tiny blocks: process died (status 0x%x)", st);
   }
